@@ -711,6 +711,10 @@ class Inference(Serializable):
         other = copy.deepcopy(self)
 
         other._x0 = x0
+
+        # drop the start values cached by the parent so that the given ones are used
+        other.__dict__.pop('x0', None)
+
         other._check_x0_within_bounds()
 
         # generate a new random seed if seeded
